@@ -94,7 +94,8 @@ func walkX(v reflect.Value, seen map[uintptr]bool, fn func(n interface{})) {
 }
 
 type site struct {
-	funPos, funEnd int // offsets of the callee
+	funPos, funEnd int  // offsets of the callee
+	untrusted      bool // found after the first reported error (the tree is not faithful there)
 }
 
 func cmdSites(r xres) (sites []site) {
@@ -173,6 +174,13 @@ func compareOnce(src []byte, mode xparser.Mode, gfset *gotoken.FileSet, g *goast
 	v.toks, _ = pgo.Scan(src)
 	if x.err != nil {
 		v.kind, v.detail, v.off = "xerr", x.err.Error(), -1
+		if mode&xparser.AllErrors == 0 {
+			// after a bailout (more than 10 errors) the tree is dropped: look for the sites with AllErrors
+			if xa := parseX(src, mode|xparser.AllErrors); xa.panic == "" && xa.err != nil {
+				x = xa
+				v.sites = cmdSites(xa)
+			}
+		}
 		// the tree is only faithful up to the first error: trust command calls before it
 		first := len(src)
 		if el, ok := x.err.(xscanner.ErrorList); ok {
@@ -183,13 +191,10 @@ func compareOnce(src []byte, mode xparser.Mode, gfset *gotoken.FileSet, g *goast
 			}
 		}
 		v.off = first
-		var trusted []site
-		for _, s := range v.sites {
-			if b := nextTok(v.toks, s.funEnd); b != nil && b.Pos < first {
-				trusted = append(trusted, s)
-			}
+		for i := range v.sites {
+			// the callee was parsed before anything was reported <=> it ends before the first error
+			v.sites[i].untrusted = v.sites[i].funEnd > first
 		}
-		v.sites = trusted
 		return v
 	}
 	c := &cmpCtx{fset: gfset}
@@ -207,29 +212,216 @@ func parseGo(src []byte) (*gotoken.FileSet, *goast.File, error) {
 	return fset, f, err
 }
 
-// reduce tries to shrink a failing file to "package + the one declaration holding the
-// difference"; returns the original if the reduced file does not fail the same way.
-func reduce(src []byte, mode xparser.Mode, gfset *gotoken.FileSet, g *goast.File, v verdict) []byte {
-	best := src
-	for _, d := range g.Decls {
-		s, e := gfset.Position(d.Pos()).Offset, gfset.Position(d.End()).Offset
-		if v.off >= 0 && (v.off < s || v.off >= e) {
-			continue
+// compareRepaired compares the two trees; while the XGo tree holds (trusted) command-style
+// calls, they are reported under their key (if the trees differ) and repaired, and the
+// comparison is repeated.  The returned verdict has no command-call site left.
+func compareRepaired(src []byte, mode xparser.Mode, report bool) (verdict, []byte, int) {
+	gfset, g, err := parseGo(src)
+	if err != nil {
+		return verdict{kind: "gorejects", detail: err.Error()}, src, 0
+	}
+	cur := src
+	for iter := 0; ; iter++ {
+		v := compareOnce(cur, mode, gfset, g)
+		if v.kind != "panic" && v.kind != "same" && len(v.sites) == 0 && iter < 80 {
+			// the XGo scanner inserts a semicolon after '!' and '...' at a line end (recorded finding)
+			if next, key := repairLineEnd(cur); next != nil {
+				if report {
+					oracle(key, mode, cur, fmt.Sprintf("%s: %s", v.kind, v.detail))
+				}
+				out.Count("repaired_" + key)
+				if gfset, g, err = parseGo(next); err != nil {
+					return verdict{kind: "repairbroke", detail: err.Error()}, next, iter
+				}
+				cur = next
+				continue
+			}
 		}
-		if e > len(src) || s > e {
-			continue
+		if v.kind == "panic" || len(v.sites) == 0 || iter >= 80 {
+			if iter >= 80 {
+				out.Count("repair_limit_reached")
+			}
+			return v, cur, iter
 		}
-		cand := []byte("package p\n\n" + string(src[s:e]) + "\n")
-		fs2, g2, err := parseGo(cand)
+		// Repair: make callee and next token adjacent.  All sites are tried first (sites after
+		// the first error are not trusted, but a deletion that keeps the go/scanner token
+		// sequence cannot change the Go file); if that changes the tokens, only trusted ones.
+		apply := func(all bool) ([]byte, bool) {
+			next := append([]byte{}, cur...)
+			repaired := false
+			for i := len(v.sites) - 1; i >= 0; i-- {
+				s := v.sites[i]
+				if s.untrusted && !all {
+					continue
+				}
+				b := nextTok(v.toks, s.funEnd)
+				if b == nil || s.funEnd < 0 || b.Pos > len(next) || (i+1 < len(v.sites) && v.sites[i+1].funEnd == s.funEnd) {
+					continue
+				}
+				if b.Pos > s.funEnd {
+					next = append(next[:s.funEnd], next[b.Pos:]...)
+					repaired = true
+				}
+			}
+			return next, repaired
+		}
+		trustedAny := false
+		for _, s := range v.sites {
+			if s.untrusted {
+				continue
+			}
+			trustedAny = true
+			if b := nextTok(v.toks, s.funEnd); b != nil {
+				if v.kind != "same" {
+					if report {
+						oracle(siteKey(b.Kind), mode, snippetAround(cur, s.funPos, b.End), fmt.Sprintf("%s: %s", v.kind, v.detail))
+					}
+				} else {
+					out.Count("cmd_site_same_shape")
+				}
+			}
+		}
+		next, repaired := apply(true)
+		if repaired && !sameGoTokens(cur, next) {
+			next, repaired = apply(false)
+		}
+		if !repaired || !trustedAny {
+			if !trustedAny {
+				out.Count("only_untrusted_sites")
+			}
+			v.sites = nil
+			if v.kind == "same" {
+				return v, cur, iter
+			}
+			v.detail = "no repairable command-style call: " + v.detail
+			return v, cur, iter
+		}
+		// the repaired text has the same go/scanner tokens; re-parse with go/parser for positions
+		gfset, g, err = parseGo(next)
 		if err != nil {
-			continue
+			return verdict{kind: "repairbroke", detail: err.Error()}, next, iter
 		}
-		v2 := compareOnce(cand, mode, fs2, g2)
-		if v2.kind == v.kind && len(v2.sites) == 0 && len(cand) < len(best) {
-			best = cand
+		cur = next
+	}
+}
+
+func sameGoTokens(a, b []byte) bool {
+	ta, ok1 := goTokens(a, false)
+	tb, ok2 := goTokens(b, false)
+	if !ok1 || !ok2 || len(ta) != len(tb) {
+		return false
+	}
+	for i := range ta {
+		if ta[i].tok != tb[i].tok || ta[i].lit != tb[i].lit {
+			return false
 		}
 	}
-	return best
+	return true
+}
+
+// repairLineEnd joins a '!' or '...' token with the next token when a newline separates them.
+func repairLineEnd(src []byte) ([]byte, string) {
+	toks, ok := goTokens(src, false)
+	if !ok {
+		return nil, ""
+	}
+	key := ""
+	out := append([]byte{}, src...)
+	for i := len(toks) - 2; i >= 0; i-- {
+		t := toks[i]
+		if t.tok != gotoken.NOT && t.tok != gotoken.ELLIPSIS {
+			continue
+		}
+		end := t.off + len(t.tok.String())
+		nxt := toks[i+1].off
+		if nxt > end && strings.ContainsRune(string(src[end:nxt]), '\n') {
+			out = append(out[:end], append([]byte{' '}, out[nxt:]...)...)
+			if t.tok == gotoken.NOT {
+				key = "scan-not-before-newline"
+			} else if key == "" {
+				key = "scan-ellipsis-before-newline"
+			}
+		}
+	}
+	if key == "" {
+		return nil, ""
+	}
+	return out, key
+}
+
+// unsupported lists the Go syntax used in a declaration that the XGo parser does not have
+// (recorded findings): type parameter declarations, type sets in interfaces, instantiated
+// embedded interfaces, "${" inside an interpreted string literal.
+func unsupported(d goast.Decl) (keys []string) {
+	seen := map[string]bool{}
+	add := func(k string) {
+		if !seen[k] {
+			seen[k] = true
+			keys = append(keys, k)
+		}
+	}
+	var typeset func(e goast.Expr) bool
+	typeset = func(e goast.Expr) bool {
+		switch x := e.(type) {
+		case *goast.BinaryExpr:
+			return x.Op == gotoken.OR
+		case *goast.UnaryExpr:
+			return x.Op == gotoken.TILDE
+		case *goast.ParenExpr:
+			return typeset(x.X)
+		}
+		return false
+	}
+	goast.Inspect(d, func(n goast.Node) bool {
+		switch x := n.(type) {
+		case *goast.FuncType:
+			if x.TypeParams != nil {
+				add("go-typeparams-decl")
+			}
+		case *goast.TypeSpec:
+			if x.TypeParams != nil {
+				add("go-typeparams-decl")
+			}
+		case *goast.InterfaceType:
+			if x.Methods != nil {
+				for _, f := range x.Methods.List {
+					if len(f.Names) != 0 {
+						continue
+					}
+					switch t := f.Type.(type) {
+					case *goast.IndexExpr, *goast.IndexListExpr:
+						add("go-interface-embeds-instantiated")
+					case *goast.Ident, *goast.SelectorExpr:
+					default:
+						if typeset(t) {
+							add("go-interface-typeset")
+						} else {
+							add("go-interface-typeset") // a non-interface type term, e.g. interface{ []int }
+						}
+					}
+				}
+			}
+		case *goast.BasicLit:
+			if x.Kind == gotoken.STRING && strings.Contains(x.Value, "${") {
+				add("go-string-dollar-brace")
+			}
+		}
+		return true
+	})
+	sort.Strings(keys)
+	return
+}
+
+func violationKey(v verdict) string {
+	switch v.kind {
+	case "xerr":
+		return "xgo-rejects"
+	case "panic":
+		return "xgo-panic"
+	case "repairbroke":
+		return "harness-repair-broke-file"
+	}
+	return "tree-diff"
 }
 
 // checkFile runs the property oracle on one valid Go text.
@@ -240,65 +432,40 @@ func checkFile(origin string, src []byte, mode xparser.Mode) {
 		return
 	}
 	out.Count("files_" + origin)
-	cur := src
-	for iter := 0; iter < 60; iter++ {
-		v := compareOnce(cur, mode, gfset, g)
-		if iter == 0 {
-			out.Count("first_" + v.kind + "_" + origin)
-			if len(v.sites) > 0 {
-				out.Count("files_with_cmd_sites")
-			}
-		}
-		switch {
-		case v.kind == "panic":
-			oracle("xgo-panic", mode, cur, v.detail)
-			return
-		case v.kind == "same" && len(v.sites) == 0:
-			if iter > 0 {
-				out.Count("same_after_repair")
-			}
-			return
-		case v.kind != "same" && len(v.sites) == 0:
-			red := reduce(cur, mode, gfset, g, v)
-			key := "tree-diff"
-			if v.kind == "xerr" {
-				key = "xgo-rejects"
-			}
-			oracle(key, mode, red, fmt.Sprintf("%s @%d (origin %s, after %d repairs)", v.detail, v.off, origin, iter))
-			return
-		}
-		// command-style call sites present: the known deviation (if the tree differs), repair them
-		next := append([]byte{}, cur...)
-		repaired := false
-		for i := len(v.sites) - 1; i >= 0; i-- {
-			s := v.sites[i]
-			b := nextTok(v.toks, s.funEnd)
-			if b == nil || s.funEnd < 0 || b.Pos > len(next) {
-				continue
-			}
-			if v.kind != "same" {
-				oracle(siteKey(b.Kind), mode, snippetAround(cur, s.funPos, b.End), fmt.Sprintf("%s: %s", v.kind, v.detail))
-			} else {
-				out.Count("cmd_site_same_shape")
-			}
-			if b.Pos > s.funEnd {
-				next = append(next[:s.funEnd], next[b.Pos:]...)
-				repaired = true
-			}
-		}
-		if !repaired {
-			oracle("tree-diff", mode, cur, "command-style call with adjacent callee: "+v.detail)
-			return
-		}
-		// the repaired text has the same go/scanner tokens; re-parse with go/parser for positions
-		gfset, g, err = parseGo(next)
-		if err != nil {
-			oracle("harness-repair-broke-file", mode, next, err.Error())
-			return
-		}
-		cur = next
+	v, _, iters := compareRepaired(src, mode, true)
+	out.Count("whole_" + v.kind + "_" + origin)
+	if iters > 0 {
+		out.Count("files_with_cmd_sites")
 	}
-	out.Count("repair_limit_reached")
+	if v.kind == "same" {
+		return
+	}
+	// attribute the difference to declarations
+	explained := 0
+	for _, d := range g.Decls {
+		s, e := gfset.Position(d.Pos()).Offset, gfset.Position(d.End()).Offset
+		if s < 0 || e > len(src) || s > e {
+			continue
+		}
+		mini := []byte("package p\n\n" + string(src[s:e]) + "\n")
+		dv, dcur, diters := compareRepaired(mini, mode, false)
+		if dv.kind == "same" || dv.kind == "gorejects" {
+			continue
+		}
+		explained++
+		detail := fmt.Sprintf("%s @%d (declaration of a %s file, after %d repairs)", dv.detail, dv.off, origin, diters)
+		if feats := unsupported(d); len(feats) > 0 && dv.kind != "panic" {
+			oracle(feats[0], mode, dcur, strings.Join(feats, ",")+": "+detail)
+			out.Count("decl_known_unsupported")
+			continue
+		}
+		oracle(violationKey(dv), mode, dcur, detail)
+	}
+	if explained == 0 {
+		// no single declaration differs on its own: the difference needs the file context
+		_, cur, iters := compareRepaired(src, mode, false)
+		oracle(violationKey(v)+"-whole-file", mode, cur, fmt.Sprintf("%s @%d (origin %s, after %d repairs)", v.detail, v.off, origin, iters))
+	}
 }
 
 // snippetAround: a small valid Go file showing the statement line that holds the site.
@@ -476,7 +643,15 @@ func typeChecks(src string) bool {
 		return false
 	}
 	ok := true
-	conf := gotypes.Config{Error: func(error) { ok = false }}
+	conf := gotypes.Config{Error: func(e error) {
+		ok = false
+		if os.Getenv("C14_DEBUG") != "" {
+			if te, isTE := e.(gotypes.Error); isTE {
+				ln := fset.Position(te.Pos).Line
+				fmt.Fprintf(os.Stderr, "TYPEERR %v\n    %s\n", e, strings.Split(src, "\n")[ln-1])
+			}
+		}
+	}}
 	conf.Check("p", fset, []*goast.File{f}, nil)
 	return ok
 }
